@@ -5,7 +5,7 @@
 #  (must fail) and without it (must pass). Prints one summary line; log in /tmp/val_logs.
 set -u
 ID="$1"; CH="$2"; SKIP="${3:-}"
-SRC=/tmp/seeded_out/$ID/$CH
+SRC=${SEEDED_DIR:-/tmp/seeded_out}/$ID/$CH
 WT=/tmp/val_${ID}_$CH
 LOG=/tmp/val_logs/${ID}_$CH.log
 mkdir -p /tmp/val_logs
